@@ -103,7 +103,7 @@ fn next_down(x: f32) -> f32 {
 }
 
 fn axis_alphabet(tier: Tier) -> Vec<f32> {
-    let steps: i32 = tier.pick(40, 400);
+    let steps: i32 = if light() { 16 } else { tier.pick(40, 400) };
     let mut v: Vec<f32> = (0..=steps).map(|i| (-0.5 + 2.0 * i as f64 / steps as f64) as f32).collect();
     for s in [0.0f32, 1.0, 0.5, 0.25, 0.75] {
         v.push(next_up(s));
